@@ -91,6 +91,12 @@ impl Segment3D {
         } else {
             let ab = self.end - self.start;
             let ap = point - self.start;
+            // is_collinear() bounds the distance to the line times the length of the
+            // segment: next to a short segment it lets through points that are not
+            // within tolerance of it
+            if ap.cross(ab).length() > 1e-5 * ab.length() {
+                return Ok(false);
+            }
             // interpolate along the dominant component of the segment
             let ret: Float;
             if ab.x.abs() > Float::EPSILON && ab.x.abs() >= ab.y.abs() && ab.x.abs() >= ab.z.abs()
